@@ -115,7 +115,7 @@ def rawcopy_cases(draw):
 
 
 def campaign_rawcopy(ctx):
-    ctx.search(rawcopy_cases(), rawcopy_oracle(ctx), ctx.budget(4000, 160000))
+    ctx.search(rawcopy_cases(), rawcopy_oracle(ctx), ctx.budget(16000, 160000))
 campaign_rawcopy.shards = (4, 16)
 
 
@@ -168,7 +168,7 @@ def offsets_cases(draw):
 
 
 def campaign_offsets(ctx):
-    ctx.search(offsets_cases(), offsets_oracle(ctx), ctx.budget(1500, 60000))
+    ctx.search(offsets_cases(), offsets_oracle(ctx), ctx.budget(6000, 60000))
 campaign_offsets.shards = (2, 8)
 
 
@@ -288,7 +288,7 @@ def checksum_cases(draw):
 
 
 def campaign_checksum(ctx):
-    ctx.search(checksum_cases(), checksum_oracle(ctx), ctx.budget(800, 40000))
+    ctx.search(checksum_cases(), checksum_oracle(ctx), ctx.budget(3200, 40000))
 campaign_checksum.shards = (4, 16)
 
 
